@@ -125,6 +125,8 @@ class Engine:
         self.loop_ordinals = {}
         self.spec_defs = {}
         self.abort_paths = True
+        self.stop_after = None
+        self.stop_fired = False
 
     # ------------------------------------------------------------------ utilities
     def oblige(self, kind, st, goal, note="", extra=None, oid=None):
@@ -373,7 +375,7 @@ class Engine:
     def lift(self, obj):
         if obj is None or isinstance(obj, (bool, int, float, complex, str)):
             return obj
-        if isinstance(obj, tuple):
+        if type(obj) is tuple:
             return tuple(self.lift(x) for x in obj)
         if isinstance(obj, (dict, frozenset, set, list)):
             return Const(obj)
@@ -1167,9 +1169,18 @@ class Engine:
                         res = [("abort", str(e), snap)]
                 else:
                     res = self.exec_stmt(stmt, s)
+                stop = False
+                if self.stop_after and len(self.frames) == 1:
+                    try:
+                        stop = ast.unparse(stmt).split("\n")[0].strip().startswith(self.stop_after)
+                    except Exception:
+                        stop = False
                 for k2, v2, s2 in res:
                     if k2 == "ok":
                         self.after_stmt(stmt, s2)
+                if stop:
+                    res = [("return", None, s2) if k2 == "ok" else (k2, v2, s2) for k2, v2, s2 in res]
+                    self.stop_fired = True
                 nxt.extend(res)
             outs = nxt
         return outs
